@@ -223,6 +223,31 @@ if a == 5 {
 	return z[v].more
 }
 return bad(a, v)`,
+	// 9: one call statement suspended in two frames that are not adjacent:
+	// a higher-order helper re-entered through another function, mutual recursion
+	`param a
+apply := func(f, x) {
+	return f(x)
+}
+inner := func(x) {
+	if x > 2 { throw "inner" }
+	return x
+}
+outer := func(x) {
+	return apply(inner, x + 1)
+}
+var (even, odd)
+even = func(n) {
+	if n <= 0 { throw "bottom" }
+	return odd(n - 1)
+}
+odd = func(n) {
+	return even(n - 1)
+}
+if a > 5 {
+	return even(a - 2)
+}
+return apply(outer, a)`,
 }
 
 // verifC16Lines returns the reported stack trace lines of an uncaught error.
